@@ -47,6 +47,26 @@ CLAIMS = {
          "is also compared directly.",
          "Coq refinement proof over an executable model + in-Coq differential evaluation on operation histories",
          "6.C03"),
+ 'C04': ("forward simulation proved in Coq for the RaggedArray model: creation (create_raggedarray / "
+         "asraggedarray for any atom, dtype, index type, metadata) establishes the relation RRel to the "
+         "list-of-arrays model and every step of iterappend/append (with recovery), truncate_raggedarray, "
+         "mode change, reopen and metadata change preserves it (rstep_refines, lifted to every history in "
+         "C04_refines); ra[k] returns exactly subarray k for -len <= k < len, IndexError outside, TypeError "
+         "for non-integers (C04_getitem, proved through the index codec and chain arithmetic); a fresh "
+         "handle is related to the same state; the stored index type is the requested one. Tie: model "
+         "evaluated inside coqc on the same bounded-exhaustive + random histories as the implementation, "
+         "comparing handle state, all five files and nine reads after every step; list-of-arrays reference "
+         "compared directly, incl. iter_arrays.",
+         "Coq refinement proof over an executable model + in-Coq differential evaluation on operation histories",
+         "6.C04"),
+ 'C05': ("kernel-checked invariant: every state related to the list-of-arrays model is wf_ragged -- two "
+         "well-formed Darr arrays, indices (n,2) of an integer type whose rows, as a reader of the files "
+         "obtains them, start at 0, have start <= end, are contiguous and end at N (chain_ok), top-level "
+         "descriptor consistent -- and RRel is preserved by every operation of every history "
+         "(C05_reachable); file-only reader returns subarray k. Tie: the Coq readers (index_rows, "
+         "chain_ok) and an independent Python reader are run on the observed files after every step.",
+         "Coq invariant proof by induction over histories + in-Coq evaluation of the readers on observed files",
+         "6.C05"),
  'C09': ("kernel-checked for every start state, number of chunks, failure position and kind, and every "
          "byte count k of a failed write: the call fails, the directory is again related to the model "
          "holding the original rows ++ the completely appended chunks, and opens (C09_failed_append; "
@@ -55,6 +75,15 @@ CLAIMS = {
          "chunk boundaries +-1, mid-element, mid-row) run against the implementation and the model.",
          "Coq proof over an executable model with fault plans + in-Coq differential evaluation with kernel-enforced write failures",
          "6.C09"),
+ 'C10': ("kernel-checked for every start state, atom, number of items, failure position and kind (raising "
+         "iterable, wrong atom/rank, unconvertible item, index overflow decided by index_max of the index "
+         "type, values or index-row write stopped after any k bytes): the call fails, the state is related "
+         "to the model with the original subarrays ++ those completely appended, the directory is "
+         "wf_ragged and opens (C10_failed_append, corollary of the C04 simulation which covers the "
+         "except-branch). Tie: real failures incl. RLIMIT_FSIZE on the values file and on the indices "
+         "file and OverflowError with int8/uint8 indices, run against implementation and model.",
+         "Coq proof over an executable model with fault plans + in-Coq differential evaluation with kernel-enforced write failures",
+         "6.C10"),
  'C14': ("fit_frames and Array.iterindices are re-translated from /repo's source into Gallina on "
          "every run and five theorems (exact frame count for all integers, remainder rule, "
          "rejection of every out-of-range parameter, tiling a[start:end] when step=chunklen) are "
